@@ -233,7 +233,8 @@ def boundary_ob(cond, time, dx, r, B, facet, m=1, sel=None):
     F_ = 2 * dx
     def build():
         S = Sep("e", time, dx, r, m)
-        fpt = Opaque("fb", S.d, 1)
+        nsel = sel.stop - sel.start
+        fpt = Opaque("fb", S.d, nsel)          # one prescribed value per selected component
         def f_grid(*a):
             g = jnp.concatenate(a, axis=-1) if len(a) > 1 else a[0]
             return jnp.vectorize(lambda y: fpt(y), signature="(n)->(k)")(g)
@@ -252,13 +253,17 @@ def boundary_ob(cond, time, dx, r, B, facet, m=1, sel=None):
             xx = bb[:, (1 if time else 0):, facet]
             o = 1 if time else 0
             def g(pt):
-                N = S.F(sel.start, pt, th)          # the selected component of the network, no other
-                fv = P.app("fb", 0, (), pt)
-                if cond == "d":
-                    return (N - fv) ** 2 if not wrong else (N + fv) ** 2
-                nrm = normals[facet]
-                dn = sum((c(nrm[l] * (-1 if wrong else 1)) * D(N, pt[o + l]) for l in range(dx)), P.ZERO)
-                return (dn - fv) ** 2
+                tot = P.ZERO                        # sum over the selected components (no other) of the squared mismatch
+                for q in range(nsel):
+                    N = S.F(sel.start + q, pt, th)
+                    fv = P.app("fb", q, (), pt)
+                    if cond == "d":
+                        tot = tot + ((N - fv) ** 2 if not wrong else (N + fv) ** 2)
+                    else:
+                        nrm = normals[facet]
+                        dn = sum((c(nrm[l] * (-1 if wrong else 1)) * D(N, pt[o + l]) for l in range(dx)), P.ZERO)
+                        tot = tot + (dn - fv) ** 2
+                return tot
             return grid_arr(tt, xx, time, rows, dx, g)
         return dict(fn=fn, spec=spec, canary=lambda *z: spec(*z, wrong=True),
                     inputs=[Inp("th", (1,)), Inp("bb", (rows, S.d, F_))])
@@ -436,6 +441,8 @@ def obligations(tier):
         for time in (False, True):
             for dx, facet in ((1, 1), (2, 0), (2, 3)):
                 obs.append(boundary_ob(cond, time, dx, 1, 2, facet, m=2, sel=jnp.s_[1:2]))
+                if facet == 2 * dx - 1:       # several selected components
+                    obs.append(boundary_ob(cond, time, dx, 1, 2, facet, m=3, sel=jnp.s_[1:3]))
     obs.append(fpe_full_sigma_ob(1, 2))
     obs += [fisher_grid_r_ob(1, 2), fisher_grid_r_ob(2, 2)]
     for dx in (1, 2):
